@@ -166,7 +166,8 @@ def run(ctx, ck) -> None:
     # ------------------------------------------------------------------ I3 involution
     lazy = table.get(f'{CORE}.AbstractLazyInverseOperator')
     for cls in (lazy, dinv):
-        fn = cls.own.get('inverse')
+        r_inv = table.resolve(cls, 'inverse')
+        fn = r_inv.node if r_inv is not None else None
         t = _ret(fn) if isinstance(fn, ast.FunctionDef) else None
         ck.expect('I3', isinstance(fn, ast.FunctionDef) and t == ('attr', ('var', fn.args.args[0].arg), 'operator'), fn or cls.node,
                   'A.I.I is the wrapped operator itself', f'{cls.name}.inverse returns {show(t)} instead of the operand', instance=cls.name)
@@ -254,6 +255,15 @@ def s_moveaxis(ctx, table, cls, r):
     rt = table.resolve(cls, 'transpose')
     if rt is not None and rt.node is r.node:
         return True, 'inverse is the class-level alias of transpose (swapped source/destination, checked by C03)'
+    # or a method of its own that returns what transpose returns
+    if rt is not None and isinstance(rt.node, ast.FunctionDef) and isinstance(r.node, ast.FunctionDef) and rt.node.args.args and r.node.args.args:
+        from ..terms import subst
+
+        a, b = _ret(r.node), _ret(rt.node)
+        if a is not None and b is not None and subst(b, {('var', rt.node.args.args[0].arg): ('var', r.node.args.args[0].arg)}) == a:
+            return True, 'inverse returns exactly what transpose returns (swapped source/destination, checked by C03)'
+        if a == ('T', ('var', r.node.args.args[0].arg)):
+            return True, 'inverse returns self.T'
     return False, f'inverse ({r.provenance}) is not the transpose of the class'
 
 
